@@ -78,3 +78,18 @@ pub open spec fn auth(info: TransportInfo, id: NodeId) -> bool {
 pub open spec fn ts_of(info: TransportInfo) -> HybridTimestamp {
     match info { TransportInfo::Authenticated(a) => a.timestamp, TransportInfo::Trusted(t) => t.timestamp }
 }
+
+// ---- remaining constructors of UnsignedTransportInfo (contract-only; not needed by the property, present so that callers of
+// them inside the extracted functions stay within the unit). `from_addrs` de-duplicates per transport type: its result is
+// an uninterpreted function of the input list (nothing is assumed about it, in particular NOT that it keeps the list).
+pub uninterp spec fn dedup_by_kind(a: Seq<TransportAddress>) -> Seq<TransportAddress>;
+impl UnsignedTransportInfo {
+    #[verifier::external_body]
+    pub fn new() -> (r: Self) ensures r.addresses@.len() == 0 { unimplemented!() }
+    #[verifier::external_body]
+    pub fn from_addrs(addrs: Vec<TransportAddress>) -> (r: Self) ensures r.addresses@ == dedup_by_kind(addrs@) { unimplemented!() }
+    #[verifier::external_body]
+    pub fn add_addr(&mut self, addr: TransportAddress)
+        ensures final(self).timestamp == old(self).timestamp
+    { unimplemented!() }
+}
